@@ -16,6 +16,7 @@ import (
 	"io"
 	"os"
 	"sort"
+	"strings"
 	"sync"
 	"testing"
 	"testing/synctest"
@@ -31,6 +32,7 @@ import (
 	"github.com/attestantio/go-eth2-client/spec/phase0"
 	"github.com/attestantio/vouch/services/beaconblockproposer"
 	standardblockrelay "github.com/attestantio/vouch/services/blockrelay/standard"
+	v2 "github.com/attestantio/vouch/services/blockrelay/v2"
 	nullmetrics "github.com/attestantio/vouch/services/metrics/null"
 	standardpreparer "github.com/attestantio/vouch/services/proposalpreparer/standard"
 	"github.com/attestantio/vouch/util"
@@ -96,6 +98,11 @@ type Op struct {
 	Nodes    []string    `json:"nodes,omitempty"` // round: ok|err per secondary node; prepare: ok|err|notactive per node
 	Incoming []RegIn     `json:"incoming,omitempty"`
 	Resolve  []ResolveIn `json:"resolve,omitempty"`
+	// RealCfg, when not empty, is the JSON text of a real v2 execution configuration ("@k@" stands
+	// for the address of relay k): the service is given that configuration, and the settings of
+	// each validator are what it answered when the service asked (recorded, see OpObs.Resolved)
+	// instead of Vals[].Res / Resolve.
+	RealCfg string `json:"real_cfg,omitempty"`
 }
 
 type ValidatorIn struct {
@@ -157,6 +164,10 @@ type OpObs struct {
 	Relays    []RelayObs   `json:"relays,omitempty"`
 	Nodes     []*[]RegObs  `json:"nodes,omitempty"`
 	PrepNodes []*[]PrepObs `json:"prep_nodes,omitempty"`
+	// real configuration: what it answered for each of op.Vals (nil = error) and for the keys of
+	// the forwarded registrations
+	Resolved  []*Resolved `json:"resolved,omitempty"`
+	FResolved []ResolveIn `json:"fresolved,omitempty"`
 }
 
 type Obs struct {
@@ -244,6 +255,20 @@ func relayID(address string) uint64 {
 	return id
 }
 
+// zeroProposer is a proposer entry that parses (48 zero bytes) and that ProposerConfig refuses
+// ("proposer config without either account or validator") for every validator that reaches it.
+var zeroProposer = "0x" + strings.Repeat("00", 48)
+
+func hexFee(id uint64) string {
+	a := feeAddr(id)
+	return fmt.Sprintf("%#x", a[:])
+}
+
+func hexPub(id uint64) string {
+	k := pubKeyOf(id)
+	return fmt.Sprintf("%#x", k[:])
+}
+
 // ---------------------------------------------------------------------------------------------
 // Mocks.
 
@@ -280,6 +305,10 @@ type env struct {
 	nodes     []*[]RegObs
 	prepNodes []*[]PrepObs
 	problem   string
+	// real configuration of the current operation and what it answered
+	real      *v2.ExecutionConfig
+	resolved  map[uint64]*Resolved
+	fresolved []ResolveIn
 }
 
 func (e *env) stamp(t time.Time) uint64 {
@@ -334,11 +363,36 @@ func (e *env) accounts() map[phase0.ValidatorIndex]e2wtypes.Account {
 
 type configurator struct{ e *env }
 
-func (c configurator) ProposerConfig(_ context.Context, acc e2wtypes.Account, pubkey phase0.BLSPubKey, _ bellatrix.ExecutionAddress, _ uint64) (*beaconblockproposer.ProposerConfig, error) {
+func (c configurator) ProposerConfig(ctx context.Context, acc e2wtypes.Account, pubkey phase0.BLSPubKey, fbFee bellatrix.ExecutionAddress, fbGas uint64) (*beaconblockproposer.ProposerConfig, error) {
 	e := c.e
 	e.mu.Lock()
 	defer e.mu.Unlock()
 	pub := pubID(pubkey)
+	if e.real != nil {
+		res, err := e.real.ProposerConfig(ctx, acc, pubkey, fbFee, fbGas)
+		var rec *Resolved
+		if err == nil && res != nil {
+			rec = &Resolved{Fee: feeID(res.FeeRecipient)}
+			for _, rc := range res.Relays {
+				rec.Relays = append(rec.Relays, RelayCfg{Addr: relayID(rc.Address), Fee: feeID(rc.FeeRecipient), Gas: rc.GasLimit})
+			}
+		}
+		if acc == nil {
+			ri := ResolveIn{Pub: pub}
+			if rec != nil {
+				as := []uint64{}
+				for _, rc := range rec.Relays {
+					as = append(as, rc.Addr)
+				}
+				ri.Relays = &as
+			}
+			e.fresolved = append(e.fresolved, ri)
+		} else {
+			e.order = append(e.order, pub)
+			e.resolved[pub] = rec
+		}
+		return res, err
+	}
 	if acc == nil {
 		// forwarding path
 		for _, r := range e.op.Resolve {
@@ -601,6 +655,19 @@ func runInBubble(t *testing.T, in Input) Obs {
 		e.nodes = make([]*[]RegObs, in.NNodes)
 		e.prepNodes = make([]*[]PrepObs, in.NPrepNodes)
 		now := e.stamp(time.Now())
+		e.real, e.resolved, e.fresolved = nil, map[uint64]*Resolved{}, nil
+		if op.RealCfg != "" {
+			text := op.RealCfg
+			for a := uint64(1); a <= 4; a++ {
+				text = strings.ReplaceAll(text, fmt.Sprintf("@%d@", a), relayAddress(a, e.kindOf(a)))
+			}
+			var ec v2.ExecutionConfig
+			if err := json.Unmarshal([]byte(text), &ec); err != nil {
+				e.mu.Unlock()
+				return Obs{Problem: "real configuration does not parse: " + err.Error()}
+			}
+			e.real = &ec
+		}
 		e.mu.Unlock()
 
 		if op.Cfg != cfgPresent {
@@ -641,6 +708,11 @@ func runInBubble(t *testing.T, in Input) Obs {
 				for _, a := range *r.Relays {
 					inject(a)
 				}
+			}
+		}
+		if op.RealCfg != "" {
+			for a := uint64(1); a <= 4; a++ {
+				inject(a)
 			}
 		}
 
@@ -710,6 +782,24 @@ func runInBubble(t *testing.T, in Input) Obs {
 			if !used[k] {
 				oo.Order = append(oo.Order, k)
 			}
+		}
+		if e.real != nil {
+			for _, vi := range op.Vals {
+				v := in.Validators[vi.V]
+				rec, asked := e.resolved[v.Pub]
+				if !asked {
+					// never asked by the service: ask ourselves, so that the case says what the
+					// configuration holds for this validator
+					if res, err := e.real.ProposerConfig(ctx, account{v}, pubKeyOf(v.Pub), feeAddr(in.Fallback), 30000000); err == nil && res != nil {
+						rec = &Resolved{Fee: feeID(res.FeeRecipient)}
+						for _, rc := range res.Relays {
+							rec.Relays = append(rec.Relays, RelayCfg{Addr: relayID(rc.Address), Fee: feeID(rc.FeeRecipient), Gas: rc.GasLimit})
+						}
+					}
+				}
+				oo.Resolved = append(oo.Resolved, rec)
+			}
+			oo.FResolved = e.fresolved
 		}
 		oo.Reqs = e.reqs
 		addrs := make([]uint64, 0, len(e.relays))
@@ -809,6 +899,19 @@ func term(id uint64, in Input, obs Obs) string {
 		var oo OpObs
 		if i < len(obs.Ops) {
 			oo = obs.Ops[i]
+		}
+		if op.RealCfg != "" {
+			// the settings are what the real configuration answered
+			vals := make([]ValIn, len(op.Vals))
+			copy(vals, op.Vals)
+			for k := range vals {
+				vals[k].Res = nil
+				if k < len(oo.Resolved) {
+					vals[k].Res = oo.Resolved[k]
+				}
+			}
+			op.Vals = vals
+			op.Resolve = oo.FResolved
 		}
 		switch op.Kind {
 		case "round":
@@ -955,6 +1058,13 @@ func inputTags(in Input) []string {
 				tags = addTag(tags, "relay-"+k.Kind)
 			}
 		}
+		if op.RealCfg != "" {
+			tags = addTag(tags, "realcfg")
+			if strings.Contains(op.RealCfg, zeroProposer) {
+				tags = addTag(tags, "realcfg-invalid-proposer-entry")
+			}
+			continue
+		}
 		for _, vi := range op.Vals {
 			if vi.Res == nil {
 				tags = addTag(tags, "unresolvable")
@@ -1054,7 +1164,12 @@ func TestC11(t *testing.T) {
 	}
 	rng := NewRand(NewRand(Seed()).U64())
 	for i := 0; i < n; i++ {
-		in := gen(rng.Fork())
+		var in Input
+		if i%8 == 7 {
+			in = genReal(rng.Fork())
+		} else {
+			in = gen(rng.Fork())
+		}
 		if thorough && i%2 == 1 {
 			in.Trace = true
 		}
